@@ -56,12 +56,14 @@ def fs_history(ctx):
     d = tempfile.mkdtemp(prefix="c16fs")
     try:
         a, b, c = os.path.join(d, "a.png"), os.path.join(d, "b.png"), os.path.join(d, "c.txt")
-        steps = [("create a.png b.png c.txt", lambda: (shutil.copy(png, a), shutil.copy(png, b), shutil.copy(txt, c))),
+        l, sub = os.path.join(d, "link.png"), os.path.join(d, "sub")          # a symbolic link to an image, a directory
+        steps = [("create a.png b.png c.txt, link.png -> a.png, sub/", lambda: (shutil.copy(png, a), shutil.copy(png, b), shutil.copy(txt, c), os.symlink(a, l), os.mkdir(sub))),
                  ("remove b.png", lambda: os.remove(b)),
                  ("replace a.png by text", lambda: shutil.copy(txt, a)),
                  ("re-create b.png", lambda: shutil.copy(png, b)),
-                 ("remove everything", lambda: [os.remove(x) for x in (a, b, c) if os.path.exists(x)])]
-        seqs = {"[a, b]": [a, b], "[b, a]": [b, a], "[a]": [a], "[b]": [b], "[c]": [c], "[a, c]": [a, c], "[b, c, a]": [b, c, a], "[c, b, a, b]": [c, b, a, b]}
+                 ("remove everything", lambda: [os.remove(x) for x in (a, b, c, l) if os.path.lexists(x)])]
+        seqs = {"[a, b]": [a, b], "[b, a]": [b, a], "[a]": [a], "[b]": [b], "[c]": [c], "[a, c]": [a, c], "[b, c, a]": [b, c, a], "[c, b, a, b]": [c, b, a, b],
+                "[link]": [l], "[link, a]": [l, a], "[sub]": [sub], "[sub, a]": [sub, a]}
         done = []
         for desc, act in steps:
             act()
